@@ -188,6 +188,18 @@ def names_check(case, res, h, S, fixed):
     for k in range(n * n_h, len(v)):
         if ids[k] is not None:
             return 'population-level position %d carries the ID %r' % (k, ids[k])
+    # the optional flags select sub-lists of the same names: without IDs, and without the bottom level
+    plain = list(h.get_parameter_names())
+    for kw, want in (({'exclude_bottom_level': True}, plain[n * n_h:]),
+                     ({'exclude_bottom_level': True, 'include_ids': True}, list(res['names'][n * n_h:])),
+                     ({'include_ids': False}, plain)):
+        got = list(h.get_parameter_names(**kw))
+        if got != want:
+            return 'get_parameter_names(%s) returns %r; the corresponding part of the full list is %r' % (
+                ', '.join('%s=%s' % kv for kv in kw.items()), got, want)
+    for k in range(n * n_h):
+        if res['names'][k] != '%s %s' % (ids[k], plain[k]):
+            return 'position %d: name with ID %r, ID %r, name %r' % (k, res['names'][k], ids[k], plain[k])
     # population-level names: position (row p, dimension d) of a sub-model carries that sub-model's own name for
     # (p, d); the covariate coefficient that shifts (p, d) by covariate c is named after both
     want, k = top_names(S, list(pop.get_dim_names())), n * n_h
